@@ -522,6 +522,11 @@ pub fn library(rng: &mut Rng, hostile: bool, nested: bool) -> Vec<(String, Strin
         let fm = if rng.chance(1, 10) { Some("title: t\ntags: [a, b]\n") } else { None };
         notes.push((k.clone(), gen::document_src(&doc, &st, fm)));
     }
+    // a note without content (empty file, blank lines, front matter only) that others still refer to
+    if notes.len() > 1 && rng.chance(1, 6) {
+        let i = rng.below(notes.len());
+        notes[i].1 = rng.pick(&["", "\n\n", "---\ntitle: t\n---\n"]).to_string();
+    }
     notes
 }
 
